@@ -159,7 +159,7 @@ def run(every, offset, limit, log):
         t0 = time.time()
         rec = dict(m, id=mid, caught_by=[])
         try:
-            rc, out = sh('cargo test --workspace --no-fail-fast --offline 2>&1', cwd=REPO, timeout=420, env={'CARGO_TARGET_DIR': MUT + '/rtarget'})
+            rc, out = sh('cargo test --workspace --no-fail-fast --offline 2>&1', cwd=REPO, timeout=150, env={'CARGO_TARGET_DIR': MUT + '/rtarget'})
             if 'error[' in out or 'error: could not compile' in out:
                 rec['outcome'] = 'no-compile'
             elif rc != 0:
